@@ -38,16 +38,30 @@ def run(prog, ctx):
     st_off = [(b, s.rvalue(rv)) for (f, b, kind, place, rv, span, adt, fld) in sym.field_stores(prog, adt=F, field="offset", fns=[mrg]) if rv is not None]
     st_w = [(b, C.resolve_var(prog, mrg, s.rvalue(rv), s)) for (f, b, kind, place, rv, span, adt, fld) in sym.field_stores(prog, adt=F, field="stream_weight", fns=[mrg]) if rv is not None]
     res.obligations += 3
-    ok_off = any(C.is_bin(e, "Add") and "other.offset" in show(e) and "self.offset" in show(e) for _, e in st_off)
-    ok_w = any(C.is_bin(e, "Add") and "other.stream_weight" in show(e) and "self.stream_weight" in show(e) for _, e in st_w)
-    if ok_off:
-        res.discharged += 1
-    else:
-        res.violate("C07.C", "C07.C|offset", "merge does not add other.offset to self.offset (stores: %s)" % [show(e) for _, e in st_off], mrg.id)
-    if ok_w:
-        res.discharged += 1
-    else:
-        res.violate("C07.C", "C07.C|weight", "merge does not store self.stream_weight + other.stream_weight (stores: %s)" % [show(e) for _, e in st_w], mrg.id)
+    def adds_other(e, fld):
+        """self.<fld> + <another parameter>.<fld> (parameter names are irrelevant)"""
+        mine = sym.contains(e, lambda t: t[0] == "field" and t[2] == fld and t[1][0] == "param" and t[1][1] == 1)
+        theirs = sym.contains(e, lambda t: t[0] == "field" and t[2] == fld and t[1][0] == "param" and t[1][1] >= 2)
+        return sym.contains(e, lambda t: C.is_bin(t, "Add")) and mine and theirs
+
+    def conservation(stores, fld):
+        if any(adds_other(e, fld) for _, e in stores):
+            return True
+        # positive evidence of a loss: merge stores the field without the other sketch's share, or nothing in merge (nor in a
+        # callee that is handed the other sketch) stores it
+        if stores:
+            return False
+        for b_, site_ in mrg.calls():
+            tgt_ = site_.get("callee")
+            if tgt_ in prog.fns and any((lambda ae: ae[0] == "param" and ae[1] >= 2)(s.at(b_, "t").operand(a_)) for a_ in site_["args"]) and any(
+                    True for g_ in C.reach_from(prog, [tgt_]) for _ in sym.field_stores(prog, adt=F, field=fld, fns=[g_])):
+                return None
+        return False
+    ok_off = conservation(st_off, "offset")
+    ok_w = conservation(st_w, "stream_weight")
+    res.obligations -= 2
+    res.tri(ok_off, "C07.C", "C07.C|offset", "merge does not add the other sketch's offset to self.offset (stores: %s)" % [show(e) for _, e in st_off], mrg.id)
+    res.tri(ok_w, "C07.C", "C07.C|weight", "merge does not store self.stream_weight + the other sketch's stream_weight (stores: %s)" % [show(e) for _, e in st_w], mrg.id)
     blocks = set(b for b, _ in st_off) | set()
     wblocks = set(b for b, _ in st_w)
     # paths that avoid the conserving stores must be dominated by other.stream_weight == 0
@@ -66,13 +80,15 @@ def run(prog, ctx):
                     fx = s.cmp_facts_at(tgt)
                     if s.edge_dominates(b.idx, tgt, tgt):
                         early.append((tgt, fx))
-        okg = bool(early) and all(any(x[0] == "Eq" and len(x) == 3 and "other.stream_weight" in (show(x[1]) + show(x[2])) and 0 in (C.const_of(x[1]), C.const_of(x[2])) for x in fx)
+        okg = bool(early) and all(any(x[0] == "Eq" and len(x) == 3 and (sym.contains(x[1], lambda t: t[0] == "field" and t[1][0] == "param" and t[1][1] >= 2) or sym.contains(x[2], lambda t: t[0] == "field" and t[1][0] == "param" and t[1][1] >= 2)) and 0 in (C.const_of(x[1]), C.const_of(x[2])) for x in fx)
                                   or any(mrg.dominates(t2, tgt) and t2 != tgt for t2, _ in early) for tgt, fx in early)
         # accept only if the first avoiding edge is the weight guard
         first = [fx for tgt, fx in early if not any(mrg.dominates(t2, tgt) and t2 != tgt for t2, _ in early)]
-        okg = bool(first) and all(any(x[0] == "Eq" and len(x) == 3 and "other.stream_weight" in (show(x[1]) + show(x[2])) and 0 in (C.const_of(x[1]), C.const_of(x[2])) for x in fx) for fx in first)
+        okg = bool(first) and all(any(x[0] == "Eq" and len(x) == 3 and (sym.contains(x[1], lambda t: t[0] == "field" and t[1][0] == "param" and t[1][1] >= 2) or sym.contains(x[2], lambda t: t[0] == "field" and t[1][0] == "param" and t[1][1] >= 2)) and 0 in (C.const_of(x[1]), C.const_of(x[2])) for x in fx) for fx in first)
         if okg:
             res.discharged += 1
+        elif not first:
+            res.undecided += 1
         else:
             res.violate("C07.C", "C07.C|early-return", "merge has a path that skips adding the other sketch's weight/offset and is not guarded by `other.stream_weight == 0` (guards: %s)" % [
                 [(x[0], show(x[1])[:40], show(x[2])[:40] if len(x) > 2 else "") for x in fx] for fx in first][:2], mrg.id)
@@ -86,12 +102,12 @@ def run(prog, ctx):
         s_ = Sym(prog, f)
         rets = [b.idx for b in f.blocks if b.term[0] == "return" and not b.cleanup]
         return s_.at(rets[0]).local(0) if rets else ("unknown",)
-    for nm, pred, txt in (
-            ("lower_bound", lambda e: e[0] == "call" and e[1].endswith("::get"), "get(item)"),
-            ("upper_bound", lambda e: C.is_bin(e, "Add") and "get(" in show(e) and "self.offset" in show(e), "get(item) + offset"),
-            ("maximum_error", lambda e: e[0] == "field" and e[2] == "offset", "offset"),
-            ("total_weight", lambda e: e[0] == "field" and e[2] == "stream_weight", "stream_weight"),
-            ("estimate", lambda e: e[0] == "select" and "get(" in show(e[1]) and C.is_bin(e[2], "Add") and "self.offset" in show(e[2]) and e[3] == ("const", 0), "get>0 ? get+offset : 0")):
+    for nm, spec, txt in (
+            ("lower_bound", lambda v, off, sw: v, "counter"),
+            ("upper_bound", lambda v, off, sw: v + off, "counter + offset"),
+            ("maximum_error", lambda v, off, sw: off, "offset"),
+            ("total_weight", lambda v, off, sw: sw, "stream_weight"),
+            ("estimate", lambda v, off, sw: (v + off) if v > 0 else 0, "counter > 0 ? counter + offset : 0")):
         f = C.pub_fn(prog, F, nm)
         if f is None:
             res.violate("C07.B", "C07.B|missing|" + nm, "FrequentItemsSketch::%s no longer exists" % nm)
@@ -99,11 +115,23 @@ def run(prog, ctx):
         e = ret_expr(f)
         n_b += 1
         res.obligations += 1
-        if pred(e):
+        bad = None
+        try:
+            for v in (0, 1, 5, 10 ** 9):
+                for off in (0, 3, 77):
+                    for sw in (0, 12345):
+                        got = formula.evaluate(e, {"@prog": prog, "@fn:get": lambda m, item, _v=v: _v, "@lenient": ("get",), "self.offset": off, "self.stream_weight": sw})
+                        if got != spec(v, off, sw):
+                            bad = "counter=%d offset=%d stream_weight=%d: %r, expected %r" % (v, off, sw, got, spec(v, off, sw))
+        except formula.Uneval as u:
+            res.undecided += 1
+            res.extra.setdefault("undecided_items", []).append("C07.B %s not evaluable: %s" % (nm, u))
+            continue
+        if bad is None:
             res.discharged += 1
             res.sample({"rule": "C07.B", "fn": nm, "returns": show(e)})
         else:
-            res.violate("C07.B", "C07.B|" + nm, "%s returns %s, expected %s" % (nm, show(e), txt), f.id)
+            res.violate("C07.B", "C07.B|" + nm, "%s returns %s, which is not %s (%s)" % (nm, show(e), txt, bad), f.id)
     fi = C.pub_fn(prog, F, "frequent_items_with_threshold")
     if fi is not None:
         s2 = Sym(prog, fi)
@@ -128,8 +156,10 @@ def run(prog, ctx):
         # one comparison uses count + offset, one uses the bare count, both strict against max(threshold, offset)
         if (True, True, "threshold") in shapes:
             res.discharged += 1
+        elif (True, False, "threshold") in shapes:
+            res.violate("C07.B", "C07.B|frequent_items", "frequent_items_with_threshold compares the upper bound non-strictly against the threshold", fi.id)
         else:
-            res.violate("C07.B", "C07.B|frequent_items", "frequent_items_with_threshold no longer compares the upper bound strictly against max(threshold, offset)", fi.id)
+            res.undecided += 1
     res.rule("C07.B", n_b, 5, "bound accessors")
 
     # ---------------- C07.P purge flow and C07.K resize-or-purge after insertion
@@ -146,6 +176,10 @@ def run(prog, ctx):
                 stores = [(bb, s3.rvalue(rv)) for (ff, bb, kind, place, rv, span, adt, fld) in sym.field_stores(prog, adt=F, field="offset", fns=[f]) if rv is not None]
                 if any(C.is_bin(e, "Add") and "purge(" in show(e) and "self.offset" in show(e) for _, e in stores):
                     res.discharged += 1
+                elif site.get("dest") is not None and not isinstance(site["dest"], int):
+                    res.undecided += 1
+                elif stores and any(sym.contains(e, lambda t: t[0] == "var") for _, e in stores):
+                    res.undecided += 1      # the purge result travels through a reassigned local
                 else:
                     res.violate("C07.P", "C07.P|%s|offset" % f.id, "the value returned by purge in %s is not added to offset" % f.id, f.id, site["span"])
             if cal.endswith("::adjust_or_put_value"):
@@ -154,6 +188,8 @@ def run(prog, ctx):
                 rp = [bb for bb, st in f.calls() if (st.get("callee") or "").endswith("::maybe_resize_or_purge")]
                 if rp and not s3.reaches_exit_avoiding(site["target"] if site["target"] is not None else b, set(rp)):
                     res.discharged += 1
+                elif not rp and any((st.get("callee") or "").startswith("frequencies::") and bb != b and s3._reaches(b, bb) for bb, st in f.calls()):
+                    res.undecided += 1      # some other in-crate step follows the insertion (renamed helper?)
                 else:
                     res.violate("C07.K", "C07.K|%s" % f.id, "an insertion in %s can reach the function exit without the resize-or-purge step" % f.id, f.id, site["span"])
     pf = C.fn_one(prog, M, "purge")
@@ -166,17 +202,24 @@ def run(prog, ctx):
         keep = [b for b, st in pf.calls() if (st.get("callee") or "").endswith("::keep_only_positive_counts")]
         if adj and C.resolve_var(prog, pf, adj[0][1], s4) == ret:
             res.discharged += 1
+        elif not adj or sym.contains(ret, lambda t: t[0] == "var"):
+            res.undecided += 1
         else:
             res.violate("C07.P", "C07.P|purge|median", "purge subtracts %s from the counters but returns %s" % (show(adj[0][1]) if adj else "nothing", show(ret)), pf.id)
         if adj and keep and pf.dominates(adj[0][0], keep[0]):
             res.discharged += 1
+        elif not (adj and keep):
+            res.undecided += 1
         else:
             res.violate("C07.P", "C07.P|purge|cleanup", "purge does not remove zero counters after the subtraction", pf.id)
     s5 = Sym(prog, upd)
     res.obligations += 1
     sw = [s5.rvalue(rv) for (ff, bb, kind, place, rv, span, adt, fld) in sym.field_stores(prog, adt=F, field="stream_weight", fns=[upd]) if rv is not None]
-    if any(C.is_bin(e, "Add") and "count" in show(e) and "stream_weight" in show(e) for e in sw):
+    if any(sym.contains(e, lambda t: C.is_bin(t, "Add") or (t[0] == "call" and t[1].rsplit("::", 1)[-1] in ("checked_add", "saturating_add", "wrapping_add"))) and
+           sym.contains(e, lambda t: t[0] == "param" and t[1] >= 2) and sym.contains(e, lambda t: t[0] == "field" and t[2] == "stream_weight") for e in sw):
         res.discharged += 1
+    elif sw:
+        res.undecided += 1
     else:
         res.violate("C07.P", "C07.P|stream_weight", "update_with_count does not add the count to stream_weight", upd.id)
     res.rule("C07.P", n_p, 3, "purge/insert sites")
@@ -251,7 +294,8 @@ def run(prog, ctx):
             if e[0] == "agg" and e[1].endswith("FrequentItemsSketch::FrequentItemsSketch"):
                 ctor = (f, e)
     if ctor is None:
-        res.violate("C07.S", "C07.S|ctor", "no straight-line constructor of FrequentItemsSketch found")
+        res.obligations += 1
+        res.undecided += 1
     else:
         f, e = ctor
         names = [fl[0] for fl in prog.adts[F]["variants"][0]["fields"]]
